@@ -437,13 +437,12 @@ def dict_method(run, d, attr, args, kwargs, node):
             return Conc(("dictkeys", d)), None
         return Conc(("seqview", Val(TSeq(ty.k), ty.order(t)))), None
     if attr == "items":
-        if not ty.ordered:
-            raise err("dict.items() on an unordered dict type; declare ordered=True")
         ety = TTup([ty.k, ty.v])
         rty = TSeq(ety)
         r = z3.FreshConst(rty.sort(), "items")
         i = z3.FreshConst(z3.IntSort(), "ii")
-        order = ty.order(t)
+        # insertion order when it is tracked, otherwise SOME duplicate-free enumeration of the keys
+        order = ty.order(t) if ty.ordered else dict_keys_enum(run, d).t
         run.assume(z3.Length(r) == z3.Length(order))
         run.assume(z3.ForAll([i], z3.Implies(z3.And(0 <= i, i < z3.Length(r)), r[i] == ety.mk(order[i], z3.Select(ty.val(t), order[i])))))
         return Conc(("seqview", Val(rty, r))), None
